@@ -3,6 +3,8 @@ import SnaxVerif.Lemmas.PhsDecode
 /-! C20: merge histories of any length. Core Lean only. -/
 namespace SnaxVerif.Phs
 
+variable [Variant]
+
 theorem slotInv_of_noMux {A : PE} (h : ∀ k p t, A.slot k p = some t → t.hasMux = false) : SlotInv A := by
   refine ⟨?_, ?_, ?_⟩
   · intro k p t ht
